@@ -237,6 +237,7 @@ func c06AggRetry(r *vx.Rand) {
 		return
 	}
 	attempts := 2 + r.Intn(2)
+	lastFlags := ""
 	var prev [][]byte
 	for at := 0; at < attempts; at++ {
 		if at > 0 {
@@ -301,6 +302,13 @@ func c06AggRetry(r *vx.Rand) {
 		for _, c := range calls {
 			c := sortedKeys(c)
 			fl := pick(r, []string{"-", "-", "r", "n", "rn", "c"})
+			if at > 0 && r.Bool() {
+				// the retry asks for something else than the attempt before it (more often: for MORE)
+				for fl == lastFlags {
+					fl = pick(r, []string{"-", "r", "r", "rn", "c"})
+				}
+			}
+			lastFlags = fl
 			res := ""
 			if !step(func() { res = a.LockAt(c, fl, sel) }) {
 				return
